@@ -143,7 +143,8 @@ class EventDict(dict, metaclass=MetaEventDict):
             value = self[key]
             if isinstance(value, types.FunctionType):
                 return value(self)
-            elif isinstance(value, tuple):
+            elif isinstance(value, tuple)\
+            and not isinstance(value, scl.Scale):
                 return arrayed_param(value)
             else:
                 return value
